@@ -72,6 +72,10 @@ type UEChoice struct {
 	// NEA0, NEA2, NEA1 and NIA2, NIA1.
 	EncPrio []int `json:"enc_prio,omitempty"`
 	IntPrio []int `json:"int_prio,omitempty"`
+	// LaterIEs: the AMF implements a later release of TS 38.413 and adds this many information elements the emulator's
+	// release does not know (criticality ignore) at the end of Downlink NAS Transport, Initial Context Setup Request and
+	// PDU Session Resource Setup Request.
+	LaterIEs int `json:"later_release_ies,omitempty"`
 }
 
 // Optional downlink information elements, placed where TS 38.413 allows them.
